@@ -1,10 +1,16 @@
 /-
-C18 — Every committed push is announced (content and count of notifications).
-The convergence of realtime clients "by themselves" is a liveness statement about goroutines, MQTT
-delivery and retries: the model proves only the safety half (what is announced, and that a settled
-system is a quiescent one — see C05); this is stated in DESIGN.md §6 C18 and in the level text.
+C18 — Every committed push is announced; realtime clients converge by themselves.
+First clause: `processPack` of Model/Server (what is announced, when).
+Second clause: the small-step model Model/Realtime.lean of the client's DatatypeManager
+(DeliverTransaction with its semaphore and re-check, ReceiveNotification, syncIfNeedPull) + the server's
+publish-after-store, with arbitrary delays of every message and goroutine. Its guards are NOT written by
+hand: `Gen.rtFacts` is regenerated from client/pkg/internal/managers/datatype.go on every run
+(tools/gofacts), and the theorems below are stated FOR THOSE FACTS.
+Not modelled (named): loss of MQTT messages (QoS 0 over a broken connection), a client that is not yet
+subscribed to the topic when the first foreign push is announced (the first sync closes that window).
 -/
 import Orda.Proofs.ServerContract
+import Orda.Proofs.RealtimeProofs
 namespace Orda.Props.C18
 open Orda
 
@@ -17,5 +23,50 @@ theorem announced_iff_stored (st : Store) (cl : ClientDoc) (col : CollectionDoc)
 
 theorem pull_only_is_silent (st : Store) (cl : ClientDoc) (col : CollectionDoc) (p : Pack) (h : p.ops = []) :
     (processPack st cl col p).notif = none := pull_only_silent st cl col p h
+
+/-! ### realtime clients -/
+open Orda.Rt
+
+/-- REGENERATED TIE: the guards found in the current source are the ones the proofs are about -/
+theorem source_guards : Gen.rtFacts = Rt.currentFacts := by decide
+
+/-- no lost wake-up: in EVERY state reachable under any interleaving of user operations, delivery
+    goroutines, server handling, responses and (arbitrarily delayed) notifications, once nothing is in
+    flight every client has pushed everything, stands at the end of the log, and the server has stored all
+    of its operations — with no Sync call by anybody -/
+theorem realtime_clients_converge_by_themselves (n : Nat) (S : Sys) (h : Reach Gen.rtFacts n S) (hq : Quiescent S) :
+    Converged S := by
+  rw [source_guards] at h
+  exact rt_quiescent_converged n S h hq
+
+/-- … and they do get there: while something is in flight a processing step is enabled, every
+    processing step decreases the measure `μ`, so after the users stop, EVERY schedule reaches a quiescent
+    converged state within `μ S` steps and no schedule runs for ever -/
+theorem realtime_settles {n : Nat} {S : Sys} (h : Reach Gen.rtFacts n S) :
+    (¬ Quiescent S → ∃ S', Step Gen.rtFacts S S' ∧ ¬ IsLocalOp S S') ∧
+    (∀ k S', PRun Gen.rtFacts k S S' → k ≤ μ S) ∧
+    (∀ k S', PRun Gen.rtFacts k S S' → (∃ S'', PStep Gen.rtFacts S' S'') ∨ (Quiescent S' ∧ Converged S')) ∧
+    (¬ ∃ σ : Nat → Sys, σ 0 = S ∧ ∀ k, PStep Gen.rtFacts (σ k) (σ (k + 1))) := by
+  rw [source_guards] at h ⊢
+  exact ⟨fun hq => rt_progress h hq, (rt_terminates h).1, (rt_terminates h).2, rt_no_infinite_run h⟩
+
+/-- notifications caused by the client itself are ignored (`ownFilter`), and ignoring them loses nothing:
+    the statement above holds although the pusher drops its own notification -/
+theorem own_notifications_ignored : Gen.rtFacts.ownFilter = true := by decide
+
+/-- the guards matter: were the notification-triggered sync to give up when a delivery is in flight
+    (`notifySyncTakesSema`), a client could stay behind the log for ever; were the delivery not to re-check
+    after releasing (`deliverRechecks`), an operation could stay unpushed for ever -/
+theorem guards_are_needed :
+    (∃ S, Reach factsNotifySema 2 S ∧ Quiescent S ∧ ¬ Converged S) ∧
+    (∃ S, Reach factsNoRecheck 1 S ∧ Quiescent S ∧ ¬ Converged S) := by
+  obtain ⟨S, h1, h2, h3, _⟩ := rt_notifySema_lost_wakeup
+  obtain ⟨T, g1, g2, g3, _⟩ := rt_noRecheck_never_pushed
+  exact ⟨⟨S, h1, h2, h3⟩, ⟨T, g1, g2, g3⟩⟩
+
+/-- non-vacuity: a reachable quiescent converged state (2 clients, 3 operations) -/
+theorem realtime_nonvacuous : ∃ S, Reach Gen.rtFacts 2 S ∧ Quiescent S ∧ Converged S := by
+  obtain ⟨S, h, hq, hc, _⟩ := rt_nonvacuous
+  exact ⟨S, source_guards ▸ h, hq, hc⟩
 
 end Orda.Props.C18
